@@ -45,6 +45,7 @@ type Step struct {
 type Schedule struct {
 	Plan  []Plan `json:"plan"`
 	Admin string `json:"admin"`
+	Conns int    `json:"conns"` // size of the connection pool (0 = unlimited)
 	Hist  []Step `json:"hist"`
 }
 
@@ -139,13 +140,13 @@ func classify(err error) string {
 }
 
 type world struct {
-	rec   *recdrv.Rec
-	sqldb *sql.DB
-	pool  *countPool
-	pdb   *gorm.PreparedStmtDB
-	keep  *sql.Conn
-	plans []Plan
-	mu    sync.Mutex
+	rec    *recdrv.Rec
+	sqldb  *sql.DB
+	pool   *countPool
+	pdb    *gorm.PreparedStmtDB
+	keep   *sql.Conn
+	plans  []Plan
+	mu     sync.Mutex
 	inPrep map[int]bool // goroutine is inside the cache's own PrepareContext call
 	gate   *gate        // replay only: the driver call of a use parks at "drv:use"
 	inUse  map[int]bool // goroutine's driver call was already gated (database/sql retries ErrBadConn)
@@ -154,8 +155,8 @@ type world struct {
 // countPool is the ConnPool the cache sits on: it counts the cache's pool-level PrepareContext calls.
 type countPool struct {
 	*sql.DB
-	mu sync.Mutex
-	ok map[string]int
+	mu  sync.Mutex
+	ok  map[string]int
 	all []*sql.Stmt // every statement the cache prepared on the pool
 }
 
@@ -172,13 +173,13 @@ func (p *countPool) PrepareContext(ctx context.Context, q string) (*sql.Stmt, er
 
 // track keeps the in-prepare flag from the instrumentation points (no gating).
 func (w *world) track(point string, args ...interface{}) {
-	if point != "ps:inserted" && point != "ps:prepared" && point != "ps:prepfail" {
+	if point != "ps:inserted" && point != "ps:prepared" && point != "ps:prepfail" && point != "ps:txdirect" && point != "ps:use" {
 		return
 	}
 	ctx, _ := args[0].(context.Context)
 	gi, _ := ctx.Value(gidKey{}).(int)
 	w.mu.Lock()
-	w.inPrep[gi] = point == "ps:inserted"
+	w.inPrep[gi] = point == "ps:inserted" || point == "ps:txdirect"
 	w.mu.Unlock()
 }
 
@@ -214,10 +215,14 @@ func closePending(st *sql.Stmt) bool {
 
 // replay: no idle connections are kept, so that closing a statement never has to wait for a
 // connection on which another (parked) call is in flight -- every call gets a connection of its own.
-func newWorld(plans []Plan, replay bool) (*world, error) {
+func newWorld(plans []Plan, replay bool, conns int) (*world, error) {
 	rec := recdrv.New()
 	sqldb := rec.OpenDB()
-	sqldb.SetMaxOpenConns(12)
+	if conns > 0 {
+		sqldb.SetMaxOpenConns(conns + 1) // + the pinned connection below
+	} else {
+		sqldb.SetMaxOpenConns(12)
+	}
 	if replay {
 		sqldb.SetMaxIdleConns(0)
 	}
@@ -280,6 +285,9 @@ func (w *world) op(gi int) string {
 			return "other:begin " + err.Error()
 		}
 		tx := cp.(*gorm.PreparedStmtTX)
+		if w.gate != nil {
+			w.gate.park(fmt.Sprintf("g%d", gi), "tx:begun")
+		}
 		if p.Q == "q2" {
 			_, err = tx.ExecContext(ctx, texts[p.Q], 1)
 		} else {
@@ -322,6 +330,9 @@ type Obs struct {
 }
 
 var nextGate = map[string][]string{
+	"begin":      {"tx:begun"},
+	"direct":     {"ps:txdirect"},
+	"txprep":     {"ps:use", "done"},
 	"lookup":     {"ps:miss", "ps:hit"},
 	"lockcheck":  {"ps:hit", "ps:inserted", "done"},
 	"driverprep": {"ps:prepared", "ps:prepfail"},
@@ -332,12 +343,12 @@ var nextGate = map[string][]string{
 	"useend":     {"ps:badconn", "done"},
 	"evict":      {"done"},
 }
-var fromGate = map[string]string{"lookup": "start", "lockcheck": "ps:miss", "driverprep": "ps:inserted", "publish": "ps:prepared",
+var fromGate = map[string]string{"begin": "start", "direct": "ps:hit", "txprep": "ps:txdirect", "lookup": "start", "lockcheck": "ps:miss", "driverprep": "ps:inserted", "publish": "ps:prepared",
 	"faildelete": "ps:prepfail", "wait": "ps:hit", "use": "ps:use", "useend": "drv:use", "evict": "ps:badconn"}
 
 // Replay steps the real cache through a schedule.
 func Replay(s Schedule) (Obs, error) {
-	w, err := newWorld(s.Plan, true)
+	w, err := newWorld(s.Plan, true, s.Conns)
 	if err != nil {
 		return Obs{}, err
 	}
@@ -345,7 +356,7 @@ func Replay(s Schedule) (Obs, error) {
 	g := newGate()
 	w.gate = g
 	var hmu sync.Mutex
-	entOf := map[int]int{}        // goroutine -> entry it holds
+	entOf := map[int]int{}         // goroutine -> entry it holds
 	useStmt := map[int]*sql.Stmt{} // entry -> the *sql.Stmt its holders use
 	gorm.VerifHook = func(point string, args ...interface{}) {
 		if point == "ps:closer" {
@@ -368,9 +379,15 @@ func Replay(s Schedule) (Obs, error) {
 			hmu.Lock()
 			entOf[gi] = id
 			hmu.Unlock()
+		case "ps:txdirect":
+			hmu.Lock()
+			entOf[gi] = 0
+			hmu.Unlock()
 		case "ps:use":
 			hmu.Lock()
-			useStmt[entOf[gi]] = args[1].(*gorm.Stmt).Stmt
+			if entOf[gi] != 0 {
+				useStmt[entOf[gi]] = args[1].(*gorm.Stmt).Stmt
+			}
 			hmu.Unlock()
 		}
 		g.park(fmt.Sprintf("g%d", gi), point)
@@ -463,8 +480,12 @@ steps:
 			}
 		default:
 			who := fmt.Sprintf("g%d", st.G)
-			if at := g.where(who); at != fromGate[st.A] {
-				drift("step %d: %s expected at %s, is at %q", idx+1, who, fromGate[st.A], at)
+			want := fromGate[st.A]
+			if st.A == "lookup" && s.Plan[st.G-1].Tx {
+				want = "tx:begun"
+			}
+			if at := g.where(who); at != want {
+				drift("step %d: %s expected at %s, is at %q", idx+1, who, want, at)
 				break steps
 			}
 			// a direct call on a statement whose Close has begun fails with "statement is closed", but only
@@ -572,7 +593,7 @@ func replayCmd(args []string) error {
 		if err != nil {
 			return fmt.Errorf("schedule %d: %v", i, err)
 		}
-		w.Emit(hx.M{"ev": "PS", "case": i + 1, "plan": s.Plan, "admin": s.Admin, "hist": s.Hist[:o.Ran], "obs": o})
+		w.Emit(hx.M{"ev": "PS", "case": i + 1, "plan": s.Plan, "admin": s.Admin, "conns": s.Conns, "hist": s.Hist[:o.Ran], "obs": o})
 	}
 	return nil
 }
@@ -621,10 +642,11 @@ func stormCmd(args []string) error {
 			}
 		}
 		admin := []string{"none", "reset", "close", "reset"}[r.Intn(4)]
+		conns := []int{0, 0, 1, 2, 3}[r.Intn(5)]
 		if fx != nil {
-			plans, admin, ng = fx.Plan, fx.Admin, len(fx.Plan)
+			plans, admin, ng, conns = fx.Plan, fx.Admin, len(fx.Plan), fx.Conns
 		}
-		w, err := newWorld(plans, false)
+		w, err := newWorld(plans, false, conns)
 		if err != nil {
 			return err
 		}
@@ -670,7 +692,7 @@ func stormCmd(args []string) error {
 		w.pool.mu.Lock()
 		prepares := map[string]int{"q1": w.pool.ok[texts["q1"]], "q2": w.pool.ok[texts["q2"]]}
 		w.pool.mu.Unlock()
-		wr.Emit(hx.M{"ev": "Storm", "case": i + 1, "plan": plans, "admin": admin, "resets": resets, "res": res, "prepares": prepares,
+		wr.Emit(hx.M{"ev": "Storm", "case": i + 1, "plan": plans, "admin": admin, "conns": conns, "resets": resets, "res": res, "prepares": prepares,
 			"leaked": leaked, "deadlock": deadlock})
 	}
 	return nil
